@@ -262,6 +262,11 @@ def _finish(sim, sim_name, prop, tier, seed, plan, results, t0):
         if not ok:
             raise HarnessError(f"finding {f.key_str()} of run {u['index']} did not reproduce "
                                f"when re-executed from its op list")
+        res2 = core.execute_ops(_Resetting(sim), u["cfg"], ops, stop_on=f.key_str())
+        for _, f2 in res2.findings:
+            if f2.key_str() == f.key_str():
+                f = f2
+                break
         path = core.write_replay(sim_name, prop, f, seed, u["cfg"].get("stratum", "?"),
                                  u["index"], u["cfg"], ops,
                                  hash_seed=str(u["cfg"].get("hash_seed", "0")))
